@@ -366,6 +366,40 @@ class Check(Property):
                     after = (q.magnitude, dict(q._units), hash(q._units))
                     if before != after:
                         v.append(f"C04 {name} with q = 10 {un} (autoconvert={auto}) changed its operand: {before[0]} {before[1]} -> {after[0]} {after[1]}")
+        # the same on the container layers, with scale factors other than 1 and with operands that carry no unit at all (a bare
+        # number read from a string, the quotient u / u): the operands read the same afterwards, and so does an equal container
+        # obtained from the string cache
+        from pint.util import ParserHelper, UnitsContainer
+        for T in (float, Fraction, Decimal):
+            def mk():
+                return [("PH(1, m s^-2)", ParserHelper(1, {"meter": 1, "second": -2}, non_int_type=T)),
+                        ("PH(3, m)", ParserHelper(3, {"meter": 1}, non_int_type=T)),
+                        ("PH(2)", ParserHelper(2, non_int_type=T)), ("PH(1)", ParserHelper(1, non_int_type=T)),
+                        ("PH(6 m) / PH(3 m)", ParserHelper(6, {"meter": 1}, non_int_type=T) / ParserHelper(3, {"meter": 1}, non_int_type=T)),
+                        ("from_string('3')", ParserHelper.from_string("3", T)), ("from_string('meter')", ParserHelper.from_string("meter", T)),
+                        ("UC(m)", UnitsContainer({"meter": 1}, non_int_type=T)), ("UC()", UnitsContainer({}, non_int_type=T))]
+
+            def snap(o):
+                return (getattr(o, "scale", None), dict(o._d))
+            n = len(mk())
+            for i in range(n):
+                for j in range(n):
+                    for opname, op in (("*", operator.mul), ("/", operator.truediv)):
+                        xs, ys = mk(), mk()
+                        (na, a), (nb, b) = xs[i], ys[j]
+                        sa, sb = snap(a), snap(b)
+                        try:
+                            op(a, b)
+                        except Exception:  # noqa: BLE001
+                            pass
+                        if snap(a) != sa:
+                            v.append(f"C04 {na} {opname} {nb} ({T.__name__}) changed its left operand: {sa} -> {snap(a)}")
+                        if snap(b) != sb:
+                            v.append(f"C04 {na} {opname} {nb} ({T.__name__}) changed its right operand: {sb} -> {snap(b)}")
+            for text, want in (("meter", (1, {"meter": 1})), ("3", (3, {})), ("2 * second", (2, {"second": 1}))):
+                got = ParserHelper.from_string(text, T)
+                if (got.scale, dict(got._d)) != want:
+                    v.append(f"C04 ParserHelper.from_string({text!r}, {T.__name__}) now reads {got.scale} {dict(got._d)} after earlier products / quotients")
         return v[:8]
 
     def dim_hom_probe(self):
